@@ -339,7 +339,8 @@ def statevector_views(cx, N, rwa, blocks=None):
 
 
 @harness("C02", "pure_dephasing",
-         quick=[dict(N=2, dtype="Lorentzian"), dict(N=2, dtype="Gaussian"), dict(N=2, dtype="Lorentzian", Nref=2),
+         quick=[dict(N=2, dtype="Lorentzian", Nref=2, concrete_rates=True), dict(N=2, dtype="Gaussian", Nref=2, concrete_rates=True),
+                dict(N=2, dtype="Lorentzian"), dict(N=2, dtype="Gaussian"), dict(N=2, dtype="Lorentzian", Nref=2),
                 dict(N=2, dtype="Gaussian", Nref=2, form="operators")],
          thorough=[dict(N=n, dtype=d, Nref=r, form=f) for n in (2, 3) for d in ("Lorentzian", "Gaussian")
                    for r in (1, 2) for f in ("tensor", "operators") if not (n == 3 and r == 2)] +
@@ -355,7 +356,7 @@ def statevector_views(cx, N, rwa, blocks=None):
                "and the element-wise dephasing factor of THAT sub-step - exp(-gamma dt_sub) (Lorentzian), "
                "exp(-gamma (t_{k+1}^2 - t_k^2)/2) written as exp(-gamma dt_sub^2/2) exp(-gamma dt_sub t_k) (Gaussian)",
          out="values of exp")
-def pure_dephasing(cx, N, dtype, Nref=1, form="tensor", Nt=2):
+def pure_dephasing(cx, N, dtype, Nref=1, form="tensor", Nt=2, concrete_rates=False):
     import quantarhei as qr
     from quantarhei.qm import ReducedDensityMatrixPropagator
     from quantarhei.qm.liouvillespace.puredephasing import PureDephasing
@@ -363,10 +364,17 @@ def pure_dephasing(cx, N, dtype, Nref=1, form="tensor", Nt=2):
     rhoi, rho0 = initial_state(cx, N)
     with cx.concrete():
         pd = PureDephasing(drates=numpy.zeros((N, N)), dtype=dtype)
-    gam = cx.real_symmetric("gam", N, zero_diag=True)
+    if concrete_rates:
+        # concrete dephasing rates and step: the factors are Exp of distinct constants, so a factor built from
+        # the wrong step is refuted by a trivial query (a cheap companion of the fully symbolic instances)
+        gam = cx.const_array(numpy.array([[0.0, 0.125], [0.125, 0.0]]) if N == 2 else
+                             (numpy.ones((N, N)) - numpy.eye(N)) * 0.125)
+        dt = 0.25
+    else:
+        gam = cx.real_symmetric("gam", N, zero_diag=True)
+        dt = cx.real("dt", 0.01, 0.2)
     pd.data = gam.copy()
     prop = ReducedDensityMatrixPropagator(time, ham, RTensor=RT, PDeph=pd)
-    dt = cx.real("dt", 0.01, 0.2)
     prop.Odt = dt
     prop.dt = dt
     pr = prop.propagate(rhoi, method="short-exp-2", Nref=Nref)
